@@ -435,8 +435,10 @@ def configs(tier):
                     dev = 5
                 out.append({"harness": "swarm", "max_regenerations": R, "max_steps": S, "threshold": thr, "max_dev": dev,
                             "split": size >= 500})
-    for R in range(3):  # two consecutive supervise() calls on one swarm (the spawn counter persists)
+    for R in range(top):  # two consecutive supervise() calls on one swarm (the spawn counter persists)
         for S in range(3):
+            if tier == "quick" and (2 ** S) ** (2 * (R + 1)) > 300:
+                continue  # quick keeps only the two-call configurations it can explore completely
             out.append({"harness": "swarm", "max_regenerations": R, "max_steps": S, "threshold": 0.5, "calls": 2,
                         "max_dev": None if (2 ** S) ** (2 * (R + 1)) <= 300 else 3, "split": True})
     for M in range(top + 1):
@@ -580,7 +582,7 @@ def run(ctx):
         "budget setting; states = nodes of the answer trees, transitions = their edges; distinct = distinct "
         "(result, exception, call counts, answer kinds) observations, non-trivial = those in which the loop ran "
         "past its first environment call",
-        exhaustive=True,
+        exhaustive=not bounded,
         budgets=f"0..{3 if ctx.tier == 'quick' else 4} for max_retries, max_regenerations, max_steps_per_worker, max_iterations",
         configurations=len(cfgs),
         deviation_bounded_configurations=bounded,
